@@ -61,14 +61,15 @@ def build(spec):
                 params["address_space_bounds"])
         st = np.random.get_state()
         try:
-            scen = nasim.generate_scenario(**params)
+            scen = guarded_generate(nasim.generate_scenario, **params)
         finally:
             np.random.set_state(st)
         return scen, reader.from_generated(scen)
     if kind == "genbench":
         st = np.random.get_state()
         try:
-            scen = nasim.make_benchmark_scenario(spec["name"], spec["seed"])
+            scen = guarded_generate(nasim.make_benchmark_scenario,
+                                    spec["name"], spec["seed"])
         finally:
             np.random.set_state(st)
         return scen, reader.from_generated(scen)
@@ -163,6 +164,39 @@ def gen_params(rng, max_hosts=120, allow_alpha1=False, small_bias=True):
                                      max(subs) + rng.randint(0, 4)]
     p["seed"] = rng.randint(0, 2 ** 31 - 1)
     return p
+
+
+def fix_params(p, rng):
+    """Re-establish the documented domain after num_services / num_os /
+    num_processes of a parameter set were overridden."""
+    S, OS, P = p["num_services"], p["num_os"], p["num_processes"]
+    if p["uniform"]:
+        p["num_services"] = S = min(S, 8)
+    if p.get("num_exploits") is not None:
+        p["num_exploits"] = max(1, min(p["num_exploits"], S * (OS + 1)))
+    if p.get("num_privescs") is not None:
+        p["num_privescs"] = max(1, min(p["num_privescs"], P * (OS + 1)))
+    ne = p.get("num_exploits") or S
+    npe = p.get("num_privescs") or P
+    for key, k in (("exploit_probs", ne), ("privesc_probs", npe)):
+        if isinstance(p.get(key), list) and len(p[key]) != k:
+            p[key] = [rng.choice([1.0, 0.3, 0.6, 0.9]) for _ in range(k)]
+    return p
+
+
+GEN_LINE_BUDGET = 5_000_000
+
+
+def guarded_generate(fn, *a, **k):
+    """Call a generator entry point under a virtual-time budget so that a
+    non-terminating generation is an exception, never a hang."""
+    from . import seams
+    lb = seams.LineBudget("nasim/scenarios/generator.py", GEN_LINE_BUDGET)
+    try:
+        with lb:
+            return fn(*a, **k)
+    except seams.BudgetExceeded as e:
+        raise RuntimeError(f"generator did not terminate: {e}")
 
 
 def c20_domain(params):
